@@ -60,8 +60,9 @@ def make_state(wfname, backend, fresh, jobs, hashing=False, accounting=True):
     return w
 
 
-def drain_all(world, cap=400):
-    """All terminal worlds reachable by legal scheduler steps (start / finish_ok) — BFS with dedup."""
+def drain_all(world, cap=400, stamp=None):
+    """All terminal worlds reachable by legal scheduler steps (start / finish_ok) — BFS with dedup.
+    stamp='tie': every job gives its outputs the modification time of its newest input (`cp -p`, `rsync -t`, `touch -r`) instead of 'now'."""
     if world.backend() == "local":
         return drain_all_local(world, cap)
     seen, frontier, terminals = set(), [world], []
@@ -81,7 +82,11 @@ def drain_all(world, cap=400):
                 if a == "finish_ok":
                     j = w2.sim["jobs"][jid]
                     clock = w2.clock() + 1
-                    for o in w2.wf.by_name(j["name"]).flat("outputs"):
+                    t = w2.wf.by_name(j["name"])
+                    if stamp == "tie":
+                        have = [w2.files[p][0] for p in t.flat("inputs") if p in w2.files]
+                        clock = max(have) if have else clock
+                    for o in t.flat("outputs"):
                         w2.files[o] = (clock, f"{j['name']}#{jid}")
                 w2.normalize()
                 k = e2.world_key(w2)
@@ -150,7 +155,7 @@ def converge_and_check(acc, world, sel, case, meta, depth):
     if r.exit_code != 0 or r.crashed():
         viol("run failed", r.as_dict())
         return
-    terminals, nstates = drain_all(w1)
+    terminals, nstates = drain_all(w1, stamp=meta.get("stamp"))
     acc.extra["sched_states"] += nstates
     acc.extra["transitions"] += nstates
     for wt, stuck in terminals:
@@ -263,10 +268,13 @@ QUICK = [
     dict(wf="chain", backend="sge", accounting=True, hashing=False, sels=(None,), depth=1),
     dict(wf="fork", backend="lsf", accounting=True, hashing=True, sels=(None,), depth=1),
     dict(wf="shortcut", backend="sge", accounting=True, hashing=False, sels=(None, ["X"]), depth=1, few=True),
+    # jobs that give their outputs the time stamp of their newest input (ties everywhere)
+    dict(wf="chain", backend="slurm", accounting=True, hashing=False, sels=(None,), depth=1, few=True, stamp="tie"),
 ]
 THOROUGH = [dict(wf=wf, backend=be, accounting=acct, hashing=h, sels=(None, ["B"], ["C"]), depth=1)
             for wf in ("fork", "chain") for be, acct in (("slurm", True), ("slurm", False), ("sge", True), ("lsf", True)) for h in (False, True)] + \
            [dict(wf="fork", backend=be, accounting=True, hashing=False, sels=(None,), depth=2, quick_items=True) for be in ("slurm", "lsf")] + \
+           [dict(wf=wf, backend="slurm", accounting=True, hashing=h, sels=(None, ["B"]), depth=1, stamp="tie") for wf in ("fork", "chain") for h in (False, True)] + \
            [dict(wf="diamond", backend=be, accounting=True, hashing=False, sels=(None, ["D"]), depth=1, quick_items=True) for be in ("slurm", "sge", "lsf")]
 
 
@@ -275,7 +283,7 @@ def run(ctx):
 
     done = []
     for cfg in (QUICK if ctx.tier == "quick" else THOROUGH):
-        meta = dict(wf=cfg["wf"], backend=cfg["backend"], accounting=cfg["accounting"], hashing=cfg["hashing"])
+        meta = dict(wf=cfg["wf"], backend=cfg["backend"], accounting=cfg["accounting"], hashing=cfg["hashing"], **(dict(stamp=cfg["stamp"]) if cfg.get("stamp") else {}))
         n = len(CW.WORKFLOWS[cfg["wf"]]().targets)
         its = items(n, ctx.tier == "quick" or cfg.get("quick_items"))
         if cfg.get("few"):
